@@ -6,6 +6,7 @@ import Rq.Model.BitMat
 import Rq.Model.Sparse
 import Rq.Model.Cache
 import Rq.Model.PiSolver
+import Rq.Model.SlabBytes
 /-! Driver handlers for the codec engine (E3). I/O glue around the model functions. -/
 namespace Rq.DriverE3
 open Rq Rq.Io
@@ -238,6 +239,20 @@ def handle (w : List String) : Option String :=
         | none => "err"
         | some s =>
           match (List.range n).mapM s.get? with
+          | none => "err"
+          | some l => hexList l.flatten
+  -- the same op sequence on the byte-level slab (contiguous data, paired borrow with its asserts)
+  | ["slabb", t, hs, ops] => some <|
+      match (ops.splitOn ",").mapM parseOp with
+      | none => "err"
+      | some ol =>
+        let b := unhexList hs
+        let t' := nat t
+        let n := if t' = 0 then 0 else b.length / t'
+        match ol.foldlM SlabB.apply ({ data := b, count := n, ss := t', mapping := none } : SlabB) with
+        | none => "err"
+        | some s =>
+          match (List.range n).mapM (fun i => (s.range i).map (sliceOf s.data)) with
           | none => "err"
           | some l => hexList l.flatten
   | _ => none
